@@ -28,6 +28,11 @@ func c16StringProducers(s string) []c16Producer {
 		{"values-listing", BI("values", "{k: "+q+"}") + "[0]", "", ""},
 		{"variable", "held", Var("held", q) + "\n", ""},
 		{"logical-result", "(nil || " + q + ")", "", ""},
+		// an element of one of several arrays built from the same base; a closure declared in a block / a branch that has
+		// finished (and whose storage may have been reused since) handing back what it captured
+		{"appended-element", "ap1[3]", Var("apb", "[1, 2, 3]") + "\n" + Var("ap1", BI("append", "apb", q)) + "\n" + Var("ap2", BI("append", "apb", `"other"`)) + "\n" + Var("ap3", BI("append", "apb", "0", "0")) + "\n", ""},
+		{"closure-from-block", "blk()", Var("blk", "nil") + "\n{ " + Var("hid", q) + " " + Fun("gb", "", " "+Ret("hid")+" ") + " blk = gb; }\n{ " + Var("hid2", `"other"`) + " " + Var("hid3", "0") + " }\n" + For(Var("fi", "0"), "fi < 2", "fi = fi + 1", "{ "+Var("hid4", "fi")+" }") + "\n", ""},
+		{"closure-from-branch", "mkb()()", Fun("mkb", "", " "+Var("loc", q)+" "+If(True(), "{ "+Fun("gi", "", " "+Ret("loc")+" ")+" "+Ret("gi")+" }")+" ") + "\n" + Fun("filler", "loc", " "+Var("z", "loc")+" "+Ret("z")+" ") + "\n" + `filler("other");` + "\n", ""},
 	}
 	if s == "5" || s == "7" {
 		ps = append(ps, c16Producer{"number-to-string", `("" + ` + s + `)`, "", ""})
@@ -65,6 +70,9 @@ func c16NumberProducers(n int) []c16Producer {
 		{"object-property", "({k: " + N + "}).k", "", ""},
 		{"bangla-digits", BanglaDigits(N, nil), "", ""},
 		{"division", "(" + N + " * 4 / 4)", "", ""},
+		{"appended-element", "ap1[3]", Var("apb", "[1, 2, 3]") + "\n" + Var("ap1", BI("append", "apb", N)) + "\n" + Var("ap2", BI("append", "apb", "-77")) + "\n", ""},
+		{"closure-from-block", "blk()", Var("blk", "nil") + "\n{ " + Var("hid", N) + " " + Fun("gb", "", " "+Ret("hid")+" ") + " blk = gb; }\n{ " + Var("hid2", "-77") + " " + Var("hid3", "0") + " }\n", ""},
+		{"closure-from-branch", "mkb()()", Fun("mkb", "", " "+Var("loc", N)+" "+If(True(), "{ "+Fun("gi", "", " "+Ret("loc")+" ")+" "+Ret("gi")+" }")+" ") + "\n" + Fun("filler", "loc", " "+Var("z", "loc")+" "+Ret("z")+" ") + "\n" + "filler(-77);" + "\n", ""},
 	}
 	if n >= 0 {
 		ps = append(ps, c16Producer{"abs", BI("abs", "-"+N), "", ""})
